@@ -147,7 +147,7 @@ def check(cx):
 
     # ---- C14.4 iterator hand-over -------------------------------------------------------------------------
     r4 = cx.rule("C14.4", "MPT: BtreePositionalIterator::{adv, rev} release the page they leave on every success path "
-                 "that had a current page (no hold-and-wait along the leaf chain)", floor=2)
+                 "that had a current page (no hold-and-wait along the leaf chain); a new scan iterator latches the root", floor=3)
     for name in ("adv", "rev"):
         fs = p.find_fns(r"BtreePositionalIterator::%s$" % name)
         if not fs:
@@ -162,6 +162,21 @@ def check(cx):
                 good = good and not f.success_returns_from(g.term["to"], blocked=rel)
         cx.verdict(good, r4, name, f.where(), "release on every success path after reading the sibling pointer",
                    "BtreePositionalIterator::%s can move on without releasing the page it leaves: scans accumulate latches" % name)
+
+    # a running scan keeps the root latched in its own accessor: writers write-latch the root for their whole operation, so
+    # this is what keeps a rebalance from moving cells across the leaf boundary a scanner is crossing
+    fp_ = p.find_fns(r"BtreePositionalIterator::from_position$")
+    if not fp_:
+        cx.bad(r4, "from_position:anchor-missing", "", "BtreePositionalIterator::from_position not found")
+    else:
+        f = fp_[0]
+        gp = {g.id for g in p.fns.values() if g.impl_adt == "tree::bplustree::Btree" and g.name in ("get_page", "get_page_mut", "acquire_with_accessor")}
+        gr = {g.id for g in p.fns.values() if g.impl_adt == "tree::bplustree::Btree" and g.name == "get_root"}
+        # a callee that, on all of its success paths, asks for the root and latches a page: that is the root latch
+        T = (p.must_reach_set(gp) & p.must_reach_set(gr)) - {f.id}
+        cx.verdict(bool(gp) and bool(gr) and p.all_success_paths_call(f, T, 0), r4, "scan-pins-root", f.where(), "from_position latches the root on every success path",
+                   "BtreePositionalIterator::from_position builds a scan iterator without latching the root in the iterator's accessor: a "
+                   "writer can rebalance leaves under a running scan, which then skips or repeats rows")
 
     # ---- C14.5 worker pool liveness --------------------------------------------------------------------------
     r5 = cx.rule("C14.5", "MPT: JobQueue::push notifies a waiter after queueing; the worker loop runs jobs under "
